@@ -158,7 +158,7 @@ class Engine(object):
         self.known = set(known)
         self.stopped_early = False
         self.xcheck_left = 0
-        self.replay_checks = True
+        self.replay_checks = False
         self.path_timeout_s = path_timeout_s
         self.concrete_timeout_s = concrete_timeout_s
         self.timeout_ms = timeout_ms
